@@ -16,7 +16,6 @@ PATNAMES = {0: "random", 1: "sorted", 2: "reversed", 3: "constant", 4: "two-valu
             7: "small-random", 9: "mostly-maximum", 10: "strided-two-values"}
 SAFE_SORT_PATS = [0, 0, 1, 2, 5, 6, 7, 3, 4, 9]  # incl. constant / two values / mostly the maximum (pivot = maximum rule)
 RISKY_SORT_PATS = [3, 4, 9]
-STALL_SIG = "qsort-partition-stall"
 LOOP_CHUNK = 10000
 FUEL, WFUEL = 120, 64
 
@@ -125,18 +124,18 @@ def sort_cases(rng, quick):
 
 
 def risky_sort_cases(rng, quick):
-    """inputs of the open finding qsort-partition-stall (the model decides: OutOfFuel in the walls loop)"""
-    cs = [("qutil", 10, 40058)]
-    if not quick:
-        cs += [("aligned", 10, 40058), ("qutil", 10, 40061)]
-    return [(w, p, n, 0) for (w, p, n) in cs]
+    """inputs of open non-termination findings (none at present)"""
+    return []          # no open non-termination finding: every input must return (model and implementation)
 
 
 def pivot_rule_cases(rng, quick):
-    """constant / mostly-maximum / two-valued inputs above the cutoff: hung before the pivot-is-maximum fix"""
-    cs = [("qutil", 3, 10001), ("aligned", 3, 10001), ("qt", 3, 10001), ("qutil", 9, 10001), ("aligned", 4, 20003), ("qt", 9, 15000)]
+    """constant / mostly-maximum / two-valued inputs above the cutoff (hung before the pivot-is-maximum fix) and the strided
+    two-valued inputs on which the partition loop repeated the same pass for ever (before the no-progress exit)"""
+    cs = [("qutil", 3, 10001), ("aligned", 3, 10001), ("qt", 3, 10001), ("qutil", 9, 10001), ("aligned", 4, 20003), ("qt", 9, 15000),
+          ("qutil", 10, 40058), ("aligned", 10, 40058)]          # pattern 10: a partition pass that moves neither wall
     if not quick:
-        cs += [("qutil", 3, 40001), ("aligned", 9, 25000), ("qt", 4, 30001), ("qutil", 4, 40001)]
+        cs += [("qutil", 3, 40001), ("aligned", 9, 25000), ("qt", 4, 30001), ("qutil", 4, 40001), ("qutil", 10, 40061), ("aligned", 10, 40112),
+               ("qt", 10, 40058)]
     return [(w, p, n, rng.next() >> 1) for (w, p, n) in cs]
 
 
@@ -369,7 +368,7 @@ def run(ctx):
                         "(random, sorted, reversed, constant, two values, extremes, 16 values) x types (aligned_t, saligned_t, double) x operators",
                    traces_validated_against_impl=evals, input_distribution=hist, configs=configs,
                    correspondence_mismatches=len(mism), known_class_hangs_reproduced=len(hangs_seen),
-                   refuted_on_current_tree=["qsort_partition_stall_refuted"])
+                   refuted_on_current_tree=[])
     ctx.assumptions += ["the sort used below the parallel cutoff (libc qsort, drf_qsort_dbl/_algt) is a correct sort (Section hypothesis; "
                         "compared with the real code on every run)",
                         "inputs contain no NaN and no -0.0; worker counts < 65536",
@@ -378,8 +377,8 @@ def run(ctx):
     unknown = [(w_, c) for (s, w_, c) in ofail if s is None]
     if not broken:
         if hangs_seen:
-            ctx.violation(STALL_SIG, "parallel quicksort does not terminate: a partition pass leaves both walls in place and the "
-                          "while (rightwall - leftwall > threshold) loop repeats it (model: OutOfFuel; implementation: no return within the watchdog)", hangs_seen[0])
+            ctx.violation("unlisted:nontermination", "parallel quicksort does not terminate (model: OutOfFuel; implementation: no return "
+                          "within the watchdog)", hangs_seen[0])
         for (w_, c) in unknown[:3]:
             ctx.violation("unlisted:" + w_.split()[0], w_, c)
     else:
